@@ -568,6 +568,147 @@ func runC01(c *Ctx) {
 
 	c.rule("C01.V5", "a fork cannot displace a checkpointed header: the fork height is measured against the last checkpoint the accepted chain has passed: "+checkpointFloorDoc, func() { c.checkpointFloor() })
 
+	c.rule("C01.V6", "the context a header is validated in is its real ancestor chain: lightHeaderCtx.RelativeAncestorCtx(distance) looks up exactly the height l.height - distance (in the header list, in the store, and as the height of the returned context; not clamped or adjusted: below genesis there is no ancestor and btcd's median-time and difficulty walks rely on nil there), builds the returned context from the header it found, and returns nil when the store has no such header; newLightHeaderCtx records the height it is given and the header's own bits and timestamp, which Height / Bits / Timestamp return", func() {
+		fn := c.fn("(*neutrino.lightHeaderCtx).RelativeAncestorCtx")
+		lf := func(n string) *types.Var { return c.field("neutrino", "lightHeaderCtx", n) }
+		isAH := func(v ssa.Value) bool {
+			b, ok := ir.Strip(v).(*ssa.BinOp)
+			return ok && b.Op == token.SUB && isLoadOfPath(b.X, lf("height")) && ir.Strip(b.Y) == ssa.Value(fn.Params[1])
+		}
+		anc := c.method("headerlist", "Node", "Ancestor")
+		fetch := c.method("headerfs", "BlockHeaderStore", "FetchHeaderByHeight")
+		mk := c.funcObj("neutrino", "newLightHeaderCtx")
+		var bad []string
+		var sites []ssa.Instruction
+		nAnc := 0
+		for _, in := range find(fn, callTo(anc)) {
+			nAnc++
+			sites = append(sites, in)
+			_, a := recvAndArgs(in)
+			if len(a) != 1 || !isAH(a[0]) {
+				bad = append(bad, "the header list is asked for a height other than l.height - distance at "+c.at(in))
+			}
+		}
+		fetches := find(fn, callTo(fetch))
+		for _, in := range fetches {
+			sites = append(sites, in)
+			a := argsOf(in)
+			if len(a) != 1 || !isAH(a[0]) {
+				bad = append(bad, "the store is asked for a height other than l.height - distance at "+c.at(in))
+			}
+		}
+		mks := find(fn, callTo(mk))
+		for _, in := range mks {
+			sites = append(sites, in)
+			a := argsOf(in)
+			if len(a) < 2 || !isAH(a[0]) {
+				bad = append(bad, "the returned context does not carry the height l.height - distance ("+c.at(in)+")")
+				continue
+			}
+			nodeHdr := c.field("headerlist", "Node", "Header")
+			okHdr := ir.DerivesFrom(a[1], func(x ssa.Value) bool {
+				if fa, ok := x.(*ssa.FieldAddr); ok && ir.FieldOfAddr(fa) == nodeHdr {
+					return ir.DerivesFrom(fa.X, valIsCallTo(anc))
+				}
+				return valIsCallTo(fetch)(x)
+			})
+			if !okHdr {
+				bad = append(bad, "the returned context is not built from the header that was looked up ("+c.at(in)+")")
+			}
+		}
+		if nAnc == 0 && len(fetches) == 0 || len(mks) == 0 {
+			bad = append(bad, fmt.Sprintf("%d header-list lookups, %d store lookups, %d contexts built: the ancestor is not looked up", nAnc, len(fetches), len(mks)))
+		}
+		// a failed store lookup ends in nil
+		g := errNil("store.FetchHeaderByHeight", fetches, 1)
+		for _, gs := range g.sites {
+			ir.WalkEdge(gs.br.Other(), nil, func(in ssa.Instruction) bool {
+				if r, ok := in.(*ssa.Return); ok {
+					if !ir.IsNil(ir.Strip(ir.RetVal(r, 0))) {
+						bad = append(bad, "a failed store lookup does not end in a nil ancestor (return at "+c.at(r)+")")
+					}
+					return false
+				}
+				return true
+			})
+		}
+		if len(g.unchecked) > 0 {
+			bad = append(bad, "the error of the store lookup is not examined at "+join(c.ats(g.unchecked)))
+		}
+		sort.Strings(bad)
+		c.verdict(len(bad) == 0, c.nm(fn)+" | the ancestor at exactly l.height - distance, or nil", c.P.Pos(fn.Pos()), fmt.Sprintf("%d lookups and the returned context use l.height - distance; store failure returns nil", nAnc+len(fetches)), join(uniq(bad)), c.ats(sites)...)
+		// constructor and accessors
+		mkFn := c.fn("neutrino.newLightHeaderCtx")
+		hdrBits := c.field(pWire, "BlockHeader", "Bits")
+		hdrTime := c.field(pWire, "BlockHeader", "Timestamp")
+		unix := c.method("time", "Time", "Unix")
+		var bad2 []string
+		want := map[string]func(ssa.Value) bool{
+			"height": func(v ssa.Value) bool { return ir.Strip(v) == ssa.Value(mkFn.Params[0]) },
+			"bits": func(v ssa.Value) bool {
+				return isLoadOfPath(v, hdrBits) && ir.DerivesFrom(v, func(x ssa.Value) bool { return x == ssa.Value(mkFn.Params[1]) })
+			},
+			"timestamp": func(v ssa.Value) bool {
+				call, ok := ir.Strip(v).(*ssa.Call)
+				if !ok || !callTo(unix)(call) {
+					return false
+				}
+				recv, _ := recvAndArgs(call)
+				return isLoadOfPath(recv, hdrTime) && ir.DerivesFrom(recv, func(x ssa.Value) bool { return x == ssa.Value(mkFn.Params[1]) })
+			},
+		}
+		for _, name := range []string{"height", "bits", "timestamp"} {
+			sts := find(mkFn, storeToField(lf(name)))
+			if len(sts) != 1 || !want[name](sts[0].(*ssa.Store).Val) {
+				bad2 = append(bad2, "newLightHeaderCtx does not record the "+name+" of the header it is given")
+			}
+		}
+		for name, field := range map[string]string{"Height": "height", "Bits": "bits", "Timestamp": "timestamp"} {
+			acc := c.fn("(*neutrino.lightHeaderCtx)." + name)
+			for _, r := range find(acc, isExit) {
+				if !isLoadOfPath(ir.RetVal(r.(*ssa.Return), 0), lf(field)) {
+					bad2 = append(bad2, name+"() does not return the recorded "+field)
+				}
+			}
+		}
+		sort.Strings(bad2)
+		c.verdict(len(bad2) == 0, "neutrino.lightHeaderCtx | records and reports the header's own height, bits and timestamp", c.P.Pos(mkFn.Pos()), "constructor stores (height, header.Bits, header.Timestamp.Unix()); accessors return them", join(bad2))
+	})
+
+	c.rule("C01.V7", "the header list answers an ancestor query only with the node of exactly that height: Node.Ancestor returns a node only on the edge where its Height equals the requested height (nil otherwise), so a validation context is never built from a nearby header", func() {
+		fn := c.fn("(*headerlist.Node).Ancestor")
+		nodeH := c.field("headerlist", "Node", "Height")
+		isReq := func(v ssa.Value) bool { return ir.Strip(v) == ssa.Value(fn.Params[1]) }
+		cmps := find(fn, binops(eqOps, func(v ssa.Value) bool { return isLoadOfPath(v, nodeH) }, isReq))
+		cut := ir.Cut{}
+		for _, x := range cmps {
+			for _, br := range ir.EqBranches(x.(*ssa.BinOp)) {
+				cut[br.Edge()] = true
+			}
+		}
+		// edges on which a node value is known to be nil
+		ir.Instrs(fn, func(in ssa.Instruction) {
+			b, ok := in.(*ssa.BinOp)
+			if !ok || (b.Op != token.EQL && b.Op != token.NEQ) || !(ir.IsNil(b.X) || ir.IsNil(b.Y)) {
+				return
+			}
+			for _, br := range ir.TrueBranches(b) {
+				e := br.Edge()
+				if b.Op == token.NEQ {
+					e = br.Other()
+				}
+				cut[e] = true
+			}
+		})
+		var bad []ssa.Instruction
+		for b := range ir.ReachEntry(fn, cut) {
+			if r, ok := b.Instrs[len(b.Instrs)-1].(*ssa.Return); ok && !ir.IsNil(ir.Strip(ir.RetVal(r, 0))) {
+				bad = append(bad, r)
+			}
+		}
+		c.verdict(len(cmps) >= 1 && len(bad) == 0, c.nm(fn)+" | a node is returned only where node.Height == height", c.P.Pos(fn.Pos()), fmt.Sprintf("%d comparison(s) of a node's Height with the requested height; without their equal edge (and the nil edges) only `return nil` is reachable", len(cmps)), fmt.Sprintf("a node can be returned without its Height having been found equal to the requested height (%d comparison(s))", len(cmps)), c.ats(bad)...)
+	})
+
 	c.rule("C01.O2", "handleDonePeerMsg: when the departing peer was the sync peer, headerList.ResetHeaderState(<BlockHeaders.ChainTip()>) follows (list re-mirrors the store)", func() {
 		fn := c.fn("(*neutrino.blockManager).handleDonePeerMsg")
 		syncPeer := c.field("neutrino", "blockManager", "syncPeer")
